@@ -250,10 +250,13 @@ impl PartialEq for ListType {
         let typecheck_flags: TypecheckFlags<&ClassType> = TypecheckFlags::classless();
 
         match (self, other) {
-            (E::Mixed(t1), E::Mixed(t2)) => t1
-                .iter()
-                .zip(t2.iter())
-                .all(|(x, y)| x.eq_complex(y, &typecheck_flags)),
+            (E::Mixed(t1), E::Mixed(t2)) => {
+                t1.len() == t2.len()
+                    && t1
+                        .iter()
+                        .zip(t2.iter())
+                        .all(|(x, y)| x.eq_complex(y, &typecheck_flags))
+            }
             (E::Open(t1), E::Open(t2)) => t1.eq_complex(t2, &typecheck_flags),
             (E::Mixed(t1), E::Open(t2)) | (E::Open(t2), E::Mixed(t1)) => {
                 for ty in t1 {
